@@ -10,3 +10,8 @@ func VerifSecureLoginResponse(challenge, password string) string {
 }
 
 func VerifWinlinkSecureSalt() []byte { return append([]byte(nil), winlinkSecureSalt...) }
+
+// VerifRawBody returns the stored (encoded) body bytes of m.
+func VerifRawBody(m *Message) []byte { return m.body }
+
+func VerifCleanString(s string) string { return cleanString(s) }
